@@ -4,16 +4,16 @@ _TRUST = ('Trusted: Coq kernel + vm_compute; Go runtime semantics of mutex/RWMut
 CHECKS = {
  'C04': dict(
   text=('Theorems about the two hand-written transition-system models of pubsub.go, for every buffer size, number of Senders, consumer behaviour and schedule: a subscription sees a message again only after it '
-        'Nacked the previous copy and never after an Ack; after a Nack the Sender is enabled and offers a fresh unsettled copy; settling one copy changes no other; (registry layer) every subscription in the '
+        'Nacked the previous copy and never after an Ack; after a Nack the Sender is enabled and offers a fresh unsettled copy; settling one copy changes no other; the delivery context is live on receipt and cancelled for good after the Ack; (registry layer) every subscription in the '
         'topic\'s list when the snapshot is taken gets exactly one Sender, never one of another topic. Tied to the code on every run: the stamped hook log of random and forced concurrent scenarios is replayed '
         'label by label on both models, and API-level acceptors (content/identity/context of each delivered copy, no duplicate without Nack, redelivery after every Nack, delivered to every subscription that existed '
         'at Publish, never to another topic) judge the implementation histories.'),
-  note=_TRUST + 'Partial: "eventually delivered" is judged on the implementation at quiescence; in the model it is the enabledness of the Sender (safety form).',
+  note=_TRUST + 'The no-duplicate acceptor is proved sound for the model (C04_no_dup_acceptor_sound); the content/topic/delivered acceptors are oracles. Partial: "eventually delivered" is judged on the implementation at quiescence; in the model it is the enabledness of the Sender (safety form).',
   technique='Coq proof (invariants over thread-level LTSs) + schedule-replay correspondence check + executable API acceptors',
   design_ref='DESIGN.md section 7 C04/C05/C11/C07'),
  'C07': dict(
   text=('Theorems over all schedules of the hand-written models: a subscription never sends on a closed channel or closes twice (any buffer, Senders, consumer); a woken teardown is never stuck behind an unread '
-        'channel, an unsettled message or a Nack in progress; the registry never panics after the D7 repair (refuted by a witness schedule for the pinned Publish: nil-map write after Close); the subscriber '
+        'channel, an unsettled message or a Nack in progress and its steps are bounded by a measure (it terminates with both channels closed once and every Sender returned); the registry never panics after the D7 repair (refuted by a witness schedule for the pinned Publish: nil-map write after Close); the subscriber '
         'decorator\'s pump closes its channel once, and with the D8 repair a Close/cancel is never stuck behind an unread decorated channel and every internal step decreases a measure (refuted for the pinned pump: Close hangs). '
         'Tied to the code on every run: stamped logs of random + 14 forced overlaps (Publish/Subscribe/Sender/teardown x Close/cancel) replayed on the models; watchdog verdicts (Close/cancel return, channels closed, '
         'no goroutine left, Publish/Subscribe error after Close, other subscriptions unaffected by a cancel), decorated scenarios with 1-2 layers.'),
